@@ -21,7 +21,7 @@ RULE = ("Part A (exhaustive): retry budget r in 1..4 (quick: 1..3); each transmi
         "time and outcome; with r=3 also Device._send_command()==[] and refresh() -> online False on timeout; a quarter of the patterns run with a configured connection lifetime that expires mid-exchange; on V3 a quarter of the patterns with unanswered transmissions have the device emit marker-free bytes instead of staying silent (no response by C04's skipping rule; the reference model is unchanged). Part B "
         "(exhaustive): every single fault and ordered pair from {drop, drop incl. handshake, error packet, garbage, peer close, peer reset (mid-exchange or while idle), "
         "connect refused, connect hangs, cancel at each protocol phase} x {V2,V3} x {fresh object, established connection}, "
-        "followed by a clean exchange immediately or after a pause, at LAN level or through AirConditioner.refresh() (on V3 the user's single authenticate() call may have been abandoned during the 1 s settle pause after the handshake): faulty exchange ends within contract (frames / "
+        "followed by a clean exchange immediately or after a pause, with or without a configured connection lifetime (1..60 s), at LAN level or through AirConditioner.refresh() (on V3 the user's single authenticate() call may have been abandoned during the 1 s settle pause after the handshake): faulty exchange ends within contract (frames / "
         "ProtocolError / TimeoutError / cancellation) and the clean exchange returns the device's reply (fresh handshake on V3 "
         "when needed) and refresh() reports online. Part C (Hypothesis): longer random fault sequences. Non-trivial: >=1 "
         "retransmission, or a fault followed by a successful exchange. Distinct by pattern.")
@@ -256,6 +256,9 @@ def check_faults(case: dict):
 
         ac = AC(ip="10.0.0.9", port=6444, device_id=9)
         lan = ac._lan
+        if case.get("lifetime"):
+            # configuration: connections are renewed after this many seconds (recovery must not depend on it)
+            ac.set_max_connection_lifetime(case["lifetime"])
         if version == 3:
             # the user authenticates once; every later exchange may have to re-authenticate by itself. Optionally the
             # caller gives up waiting during the 1 s settle pause that follows a successful handshake.
@@ -473,6 +476,8 @@ def run(ctx) -> None:
                         case["near_wrap"] = 17
                     if m % 4 == 2:
                         case["level"] = "device"
+                    if m % 3 == 1:
+                        case["lifetime"] = [1, 2, 5, 30][(m // 3) % 4]
                     ctx.check(case, lambda c: _run_one(ctx, c))
     ctx.sweep("part B: single faults and ordered pairs x {V2,V3} x {fresh,established} x {immediately, after a pause}", m, True)
 
@@ -481,5 +486,5 @@ def run(ctx) -> None:
         "faults": st.lists(st.sampled_from(FAULTS), min_size=1, max_size=6),
         "pause": st.sampled_from([0.0, 0.0, 0.01, 0.04, 0.06, 0.5, 1.2, 3.0, 30.0]),
         "cancel_jitter": st.sampled_from([0.0, 0.0, 0.01, -0.01, 0.025]),
-        "garbage": st.binary(min_size=1, max_size=40).map(lambda b: b.hex()), "start": st.sampled_from(["auth", "auth", "auth_cancel_pause"]), "near_wrap": st.sampled_from([0, 0, 0, 17]), "level": st.sampled_from(["lan", "lan", "device"])})
+        "garbage": st.binary(min_size=1, max_size=40).map(lambda b: b.hex()), "start": st.sampled_from(["auth", "auth", "auth_cancel_pause"]), "near_wrap": st.sampled_from([0, 0, 0, 17]), "level": st.sampled_from(["lan", "lan", "device"]), "lifetime": st.sampled_from([None, None, 1, 3, 10, 60])})
     ctx.hyp("part C", cases, lambda c: _run_one(ctx, c), ctx.n(1600, 96000))
